@@ -22,9 +22,10 @@ def R (m : St) (s : S) : Prop :=
     s.maxSlots = m.sq.maxSlots ∧ s.maxBytes = m.sq.maxBytes ∧ s.parked = toParked G ∧
     s.gone = psum a m.sq.tree.length ∧ BufOk m.buf (flat s.parked) s.readable ∧ IdxOk m.sq a G
 
-/-- The sequencer stream: non-empty packets, any sequence numbers, any order. -/
+/-- The sequencer stream: packets of every size (empty ones included), any `Save` argument, any
+sequence numbers, any order. -/
 def OpOk : Op → Prop
-  | .park _ bytes n => bytes ≠ [] ∧ 0 < n
+  | .park _ _ _ => True
   | .take _ => True
   | _ => False
 instance : (op : Op) → Decidable (OpOk op)
@@ -72,35 +73,38 @@ theorem spec_park (s : S) (seq : Int) (bytes : Bytes) (n i l : Int) (ok err : Bo
   dsimp only
   rw [if_pos ⟨h1, h2⟩]
 
-theorem step_park (m : St) (s : S) (seq : Int) (bytes : Bytes) (n : Int) (hR : R m s)
-    (hb : bytes ≠ []) (hn : 0 < n) :
+theorem step_park (m : St) (s : S) (seq : Int) (bytes : Bytes) (n : Int) (hR : R m s) :
     ∃ s', Spec.Slots.step s (.park seq bytes n) (Model.Slots.step m (.park seq bytes n)).2 = some s' ∧
           R (Model.Slots.step m (.park seq bytes n)).1 s' := by
   obtain ⟨a, G, c1, c2, hpk, hgone, hbuf, hidx⟩ := hR
   -- the packet
-  have hrdlen : 0 < (s.readable ++ bytes).length := by
-    have := List.length_pos_iff.mpr hb
-    simp only [List.length_append]; omega
   have hkle := saveLen_le n (s.readable ++ bytes).length
-  have hkpos : 0 < saveLen n (s.readable ++ bytes).length := by
-    unfold saveLen; rw [if_neg (by omega)]; split <;> omega
   have hpktlen : ((s.readable ++ bytes).take (saveLen n (s.readable ++ bytes).length)).length
       = saveLen n (s.readable ++ bytes).length := by
     rw [List.length_take]; omega
-  have hpktne : (s.readable ++ bytes).take (saveLen n (s.readable ++ bytes).length) ≠ [] := by
-    intro h; have h' := congrArg List.length h; rw [hpktlen, List.length_nil] at h'; omega
   have hgl : (flat s.parked).length = glen G := by rw [hpk]; rfl
+  obtain ⟨hs0, hs1⟩ := sidx_le G ((s.readable ++ bytes).take (saveLen n (s.readable ++ bytes).length))
   -- Write; Commit; Save
   obtain ⟨hf1, hf2⟩ := feed_spec m.buf (flat s.parked) s.readable bytes n hbuf
-  rw [if_neg (by omega), hgl, ← hpktlen] at hf2
+  have hf2' : (feed m.buf bytes n).2 = ⟨sidx G ((s.readable ++ bytes).take (saveLen n (s.readable ++ bytes).length)),
+      ((s.readable ++ bytes).take (saveLen n (s.readable ++ bytes).length)).length⟩ := by
+    rw [hf2, hpktlen]
+    unfold sidx
+    by_cases hk0 : saveLen n (s.readable ++ bytes).length = 0
+    · rw [if_pos hk0, hk0]; simp
+    · rw [if_neg hk0, if_neg (by
+        intro hx; have h' := congrArg List.length hx; rw [hpktlen, List.length_nil] at h'; exact hk0 h'), hgl]
   -- Push
-  have hps := push_spec m.sq a G hidx seq _ hpktne
+  have hps := push_spec m.sq a G hidx seq ((s.readable ++ bytes).take (saveLen n (s.readable ++ bytes).length))
   -- a failed Push is followed by Discard of the slot just saved
-  have hdis := discard_spec (feed m.buf bytes n).1 (flat s.parked)
+  have hdis := discard_at (feed m.buf bytes n).1 (flat s.parked)
     ((s.readable ++ bytes).take (saveLen n (s.readable ++ bytes).length)) [] _
+    (sidx G ((s.readable ++ bytes).take (saveLen n (s.readable ++ bytes).length)))
     (by rw [List.append_nil]; exact hf1)
-  rw [List.append_nil, hgl] at hdis
-  obtain ⟨_, b', r', hd1, hd2⟩ := hdis
+    (by intro hne; unfold sidx; rw [if_neg hne, hgl])
+    hs0 (Int.le_trans hs1 (by rw [← hgl]; exact Int.ofNat_le.mpr (by simp)))
+  simp only [List.append_nil] at hdis
+  obtain ⟨_, _, b', r', hd1, hd2⟩ := hdis
   have hsv' := saved_of_bufOk hd2
   have hsv1 := saved_of_bufOk hf1
   have hdupiff := dup_iff s G hpk hidx.nodup seq
@@ -109,8 +113,9 @@ theorem step_park (m : St) (s : S) (seq : Int) (bytes : Bytes) (n : Int) (hR : R
     unfold OverBytes; rw [hgl, c2, hpktlen]
   have hOS : OverSlots s ↔ (G.length : Int) ≥ m.sq.maxSlots := by
     unfold OverSlots; rw [hpk, toParked_length, c1]
-  have hIS : IndexSpaceUsedUp s ↔ (glen G : Int) + psum a m.sq.tree.length ≥ m.sq.maxBytes := by
-    unfold IndexSpaceUsedUp; rw [hgl, c2, hgone]
+  have hIS : sidx G ((s.readable ++ bytes).take (saveLen n (s.readable ++ bytes).length)) + psum a m.sq.tree.length
+      ≥ m.sq.maxBytes → IndexSpaceUsedUp s := by
+    intro hx; unfold IndexSpaceUsedUp; rw [hgl, c2, hgone]; omega
   have htot : Totals s.parked m.sq.bytes m.sq.size (flat s.parked) := by
     refine ⟨by rw [hidx.bytes, hgl], ?_, rfl⟩
     unfold Seqr.size; rw [hidx.len, hpk, toParked_length]
@@ -125,20 +130,20 @@ theorem step_park (m : St) (s : S) (seq : Int) (bytes : Bytes) (n : Int) (hR : R
     rw [he]
     dsimp only
     rw [if_neg (by simp)]
-    rw [hf2, hd1]
+    rw [hf2', hd1]
     dsimp only
     rw [hsv']
   have hRfail : R { m with buf := b', sq := m.sq }
       { s with readable := (s.readable ++ bytes).drop (saveLen n (s.readable ++ bytes).length) } :=
     ⟨a, G, c1, c2, hpk, hgone, hd2, hidx⟩
-  rw [← hf2] at hps
+  rw [← hf2'] at hps
   rcases hps with ⟨h1, he⟩ | ⟨h1, he⟩ | ⟨h0, h1, he⟩ | ⟨h0, h1, he⟩ | ⟨h0, h1, h2, q', he, hq', e1, e2, e3⟩
   · -- byte limit
     rw [hfail true he]
     exact ⟨_, spec_park s seq bytes n _ _ false true _ _ _ ⟨by simp, fun _ => ⟨rfl, Or.inl (hOB.mpr h1)⟩, by simp⟩ htot, hRfail⟩
   · -- index space used up
     rw [hfail true he]
-    exact ⟨_, spec_park s seq bytes n _ _ false true _ _ _ ⟨by simp, fun _ => ⟨rfl, Or.inr (Or.inr (hIS.mpr h1))⟩, by simp⟩ htot, hRfail⟩
+    exact ⟨_, spec_park s seq bytes n _ _ false true _ _ _ ⟨by simp, fun _ => ⟨rfl, Or.inr (Or.inr (hIS h1))⟩, by simp⟩ htot, hRfail⟩
   · -- duplicate
     rw [hfail false he]
     exact ⟨_, spec_park s seq bytes n _ _ false false _ _ _ ⟨by simp, by simp, fun _ _ => hdupiff.mpr h1⟩ htot, hRfail⟩
@@ -157,7 +162,8 @@ theorem step_park (m : St) (s : S) (seq : Int) (bytes : Bytes) (n : Int) (hR : R
       rw [if_pos rfl, hsv1]
     rw [hstep]
     have hpk' : s.parked ++ [(seq, (s.readable ++ bytes).take (saveLen n (s.readable ++ bytes).length))] =
-        toParked (G ++ [⟨seq, ((glen G : Int) + psum a m.sq.tree.length).toNat,
+        toParked (G ++ [⟨seq, (sidx G ((s.readable ++ bytes).take (saveLen n (s.readable ++ bytes).length)) +
+          psum a m.sq.tree.length).toNat,
           (s.readable ++ bytes).take (saveLen n (s.readable ++ bytes).length)⟩]) := by
       rw [toParked_append, hpk]; rfl
     have hflat' : flat (s.parked ++ [(seq, (s.readable ++ bytes).take (saveLen n (s.readable ++ bytes).length))]) =
@@ -215,22 +221,23 @@ theorem take_hit (m : St) (s : S) (seq : Int) (pkt : Bytes) (hR : R m s) (hp : s
   have hpkt : pkt = g.bytes := by
     rw [hpk, lookup_toParked_some G1 G2 g hu1] at hp; exact (Option.some.inj hp).symm
   subst hpkt
-  obtain ⟨q', a', hpop, hq', e1, e2, hps⟩ := pop_hit m.sq a G1 G2 g hidx
+  obtain ⟨q', a', idx, hpop, hi1, hi2, hi3, hq', e1, e2, hps⟩ := pop_hit m.sq a G1 G2 g hidx
   have hflat : flat s.parked = flat (toParked G1) ++ g.bytes ++ flat (toParked G2) := by
     rw [hpk, toParked_append, flat_append]
     show _ ++ (g.bytes ++ flat (toParked G2)) = _
     rw [List.append_assoc]
   have hbuf' := hbuf
   rw [hflat] at hbuf'
-  obtain ⟨hsl, b', r', hd1, hd2⟩ := discard_spec m.buf _ _ _ _ hbuf'
   have hlen1 : (flat (toParked G1)).length = glen G1 := rfl
-  rw [hlen1] at hsl hd1
+  obtain ⟨hslice, hsl, b', r', hd1, hd2⟩ := discard_at m.buf _ _ _ _ idx hbuf'
+    (by intro hne; rw [hlen1]; exact hi1 hne) hi2
+    (by rw [← hflat, hpk]; exact hi3)
   have hrest : without s.parked g.seq = toParked (G1 ++ G2) := by
     rw [hpk]; exact without_toParked G1 G2 g hu1 hu2
   have hflat' : flat (toParked (G1 ++ G2)) = flat (toParked G1) ++ flat (toParked G2) := by
     rw [toParked_append, flat_append]
-  refine ⟨q', b', r', glen G1, hpop, ?_, hsl, hd1, ?_, ?_, ?_, ?_⟩
-  · rw [hflat, ← hlen1]; exact slice_mid _ _ _
+  refine ⟨q', b', r', idx, hpop, ?_, hsl, hd1, ?_, ?_, ?_, ?_⟩
+  · rw [hflat]; exact hslice
   · rw [saved_of_bufOk hd2, hrest, hflat']
   · rw [hq'.bytes, hrest]; rfl
   · unfold Seqr.size; rw [hq'.len, hrest, toParked_length]
@@ -290,7 +297,7 @@ theorem step_take (m : St) (s : S) (seq : Int) (hR : R m s) :
 theorem step_refines (m : St) (s : S) (op : Op) (hR : R m s) (hop : OpOk op) :
     ∃ s', Spec.Slots.step s op (Model.Slots.step m op).2 = some s' ∧ R (Model.Slots.step m op).1 s' := by
   cases op with
-  | park seq bytes n => exact step_park m s seq bytes n hR hop.1 hop.2
+  | park seq bytes n => exact step_park m s seq bytes n hR
   | take seq => exact step_take m s seq hR
   | add _ _ => exact absurd hop id
   | off _ => exact absurd hop id
@@ -318,16 +325,10 @@ theorem R_init (maxSlots maxBytes : Int) (h : CfgOk maxSlots maxBytes) :
   · rfl
   · exact List.Pairwise.nil
   · rfl
-  · exact fen_new _
-  · intro x; exact Int.le_refl 0
-  · intro x hx; exact absurd rfl hx
-  · intro g hg; cases hg
-  · trivial
-  · exact List.Pairwise.nil
-  · intro g hg; cases hg
+  · exact off_new maxBytes
 
 /-- **C20 (main theorem).** For every pair of limits and every interleaving of `park` (any sequence
-numbers in any order, duplicates, every non-empty size, limits hit or not) and `take` (parked or not,
+numbers in any order, duplicates, every size including empty packets, limits hit or not) and `take` (parked or not,
 in any order, draining the sequencer or never draining it), everything the implementation model
 returns is accepted by the parked-packets monitor: the slot `Pop` returns, applied to the save area
 as it is at that moment, addresses exactly the bytes saved under that number; discarding it removes
@@ -386,14 +387,13 @@ theorem C20_discard_exact (m : St) (s : S) (seq : Int) (pkt : Bytes) (hR : R m s
 no limit hit) and is parked at the end of the save area, or it is rejected — silently only if the
 number is already parked, with an error only if a limit is hit — and then the sequencer and the
 save area are exactly as before. -/
-theorem C20_park_verdict (m : St) (s : S) (seq : Int) (bytes : Bytes) (n : Int) (hR : R m s)
-    (hb : bytes ≠ []) (hn : 0 < n) :
+theorem C20_park_verdict (m : St) (s : S) (seq : Int) (bytes : Bytes) (n : Int) (hR : R m s) :
     ∃ i l ok err total size saved,
       (Model.Slots.step m (.park seq bytes n)).2 = .park i l ok err total size saved ∧
       PushOk s seq (saveLen n (s.readable ++ bytes).length) ok err ∧
       (ok = false → saved = flat s.parked ∧ total = (flat s.parked).length ∧ size = s.parked.length) ∧
       (ok = true → saved = flat s.parked ++ (s.readable ++ bytes).take (saveLen n (s.readable ++ bytes).length)) := by
-  obtain ⟨s', h1, _⟩ := step_park m s seq bytes n hR hb hn
+  obtain ⟨s', h1, _⟩ := step_park m s seq bytes n hR
   cases hobs : (Model.Slots.step m (.park seq bytes n)).2 with
   | park i l ok err total size saved =>
     rw [hobs] at h1
@@ -421,11 +421,10 @@ theorem C20_park_verdict (m : St) (s : S) (seq : Int) (bytes : Bytes) (n : Int) 
   | panic => rw [hobs] at h1; cases h1
 
 /-- Duplicate sequence numbers are rejected without disturbing stored ones. -/
-theorem C20_duplicates (m : St) (s : S) (seq : Int) (bytes : Bytes) (n : Int) (hR : R m s)
-    (hb : bytes ≠ []) (hn : 0 < n) (hd : Dup s seq) :
+theorem C20_duplicates (m : St) (s : S) (seq : Int) (bytes : Bytes) (n : Int) (hR : R m s) (hd : Dup s seq) :
     ∃ i l err, (Model.Slots.step m (.park seq bytes n)).2 =
       .park i l false err ((flat s.parked).length) s.parked.length (flat s.parked) := by
-  obtain ⟨i, l, ok, err, total, size, saved, h1, hpush, hno, _⟩ := C20_park_verdict m s seq bytes n hR hb hn
+  obtain ⟨i, l, ok, err, total, size, saved, h1, hpush, hno, _⟩ := C20_park_verdict m s seq bytes n hR
   cases ok with
   | true => exact absurd hd (hpush.1 rfl).2.1
   | false =>
@@ -436,11 +435,10 @@ theorem C20_duplicates (m : St) (s : S) (seq : Int) (bytes : Bytes) (n : Int) (h
 /-- The byte and slot limits are reported as errors and leave the state unchanged (for a number
 that is already parked see `C20_duplicates`: rejected, with or without an error, state unchanged). -/
 theorem C20_capacity_errors_preserve_state (m : St) (s : S) (seq : Int) (bytes : Bytes) (n : Int) (hR : R m s)
-    (hb : bytes ≠ []) (hn : 0 < n)
     (hnew : ¬ Dup s seq) (hlim : OverBytes s (saveLen n (s.readable ++ bytes).length) ∨ OverSlots s) :
     ∃ i l, (Model.Slots.step m (.park seq bytes n)).2 =
       .park i l false true ((flat s.parked).length) s.parked.length (flat s.parked) := by
-  obtain ⟨i, l, ok, err, total, size, saved, h1, hpush, hno, _⟩ := C20_park_verdict m s seq bytes n hR hb hn
+  obtain ⟨i, l, ok, err, total, size, saved, h1, hpush, hno, _⟩ := C20_park_verdict m s seq bytes n hR
   cases ok with
   | true =>
     have := hpush.1 rfl
@@ -453,6 +451,312 @@ theorem C20_capacity_errors_preserve_state (m : St) (s : S) (seq : Int) (bytes :
     cases err with
     | true => exact ⟨i, l, h1⟩
     | false => exact absurd (hpush.2.2 rfl rfl) hnew
+
+/-! ## The bare `SlotOffsetter` (stream `add` / `off` / `reset`, slots named by handles) -/
+
+def toLive (G : List GE) : List (Int × Slot) := G.map (fun g => (g.seq, ⟨(g.o : Int), (g.bytes.length : Int)⟩))
+
+theorem lookup_toLive_none (G : List GE) (h : Int) (hno : ¬ ∃ g ∈ G, g.seq = h) : (toLive G).lookup h = none := by
+  induction G with
+  | nil => rfl
+  | cons g r ih =>
+    have h1 : ¬ g.seq = h := fun hq => hno ⟨g, List.mem_cons_self .., hq⟩
+    have h2 : ¬ ∃ g ∈ r, g.seq = h := fun ⟨x, hx, hq⟩ => hno ⟨x, List.mem_cons_of_mem _ hx, hq⟩
+    show List.lookup h ((g.seq, _) :: toLive r) = none
+    rw [List.lookup_cons]
+    have : (h == g.seq) = false := by simp; omega
+    rw [this]; exact ih h2
+
+theorem lookup_toLive_some (G1 G2 : List GE) (g : GE) (h : ∀ x ∈ G1, x.seq ≠ g.seq) :
+    (toLive (G1 ++ g :: G2)).lookup g.seq = some ⟨(g.o : Int), (g.bytes.length : Int)⟩ := by
+  induction G1 with
+  | nil => show List.lookup g.seq ((g.seq, _) :: toLive G2) = _; simp
+  | cons x r ih =>
+    show List.lookup g.seq ((x.seq, _) :: toLive (r ++ g :: G2)) = _
+    rw [List.lookup_cons]
+    have h1 := h x (List.mem_cons_self ..)
+    have : (g.seq == x.seq) = false := by simp; omega
+    rw [this]; exact ih (fun y hy => h y (List.mem_cons_of_mem _ hy))
+
+theorem filter_toLive (G1 G2 : List GE) (g : GE) (h1 : ∀ x ∈ G1, x.seq ≠ g.seq) (h2 : ∀ x ∈ G2, x.seq ≠ g.seq) :
+    (toLive (G1 ++ g :: G2)).filter (fun p => p.1 != g.seq) = toLive (G1 ++ G2) := by
+  unfold toLive
+  simp only [List.map_append, List.map_cons, List.filter_append, List.filter_cons]
+  rw [if_neg (by simp)]
+  congr 1
+  · apply List.filter_eq_self.mpr
+    intro p hp
+    obtain ⟨x, hx, rfl⟩ := List.mem_map.mp hp
+    simpa using h1 x hx
+  · apply List.filter_eq_self.mpr
+    intro p hp
+    obtain ⟨x, hx, rfl⟩ := List.mem_map.mp hp
+    simpa using h2 x hx
+
+/-- Coupling for the offsetter-only stream. -/
+def Roff (m : St) (s : S) : Prop :=
+  ∃ (a : Nat → Int) (G : List GE),
+    (m.tree.length : Int) = s.maxBytes ∧ s.maxBytes ≤ Go.I64MAX ∧ s.parked = toParked G ∧
+    s.gone = psum a m.tree.length ∧ BufOk m.buf (flat s.parked) s.readable ∧ OffOk m.tree a G ∧
+    m.live = toLive G ∧ m.next = s.next ∧ (∀ g ∈ G, g.seq < s.next) ∧
+    G.Pairwise (fun g1 g2 => g1.seq ≠ g2.seq)
+
+def OpOkOff : Op → Prop
+  | .add _ _ => True
+  | .off _ => True
+  | .reset => True
+  | _ => False
+instance : (op : Op) → Decidable (OpOkOff op)
+  | .park _ _ _ => by unfold OpOkOff; exact inferInstance
+  | .take _ => by unfold OpOkOff; exact inferInstance
+  | .add _ _ => by unfold OpOkOff; exact inferInstance
+  | .off _ => by unfold OpOkOff; exact inferInstance
+  | .reset => by unfold OpOkOff; exact inferInstance
+
+theorem spec_add (s : S) (bytes : Bytes) (n i l : Int) (err : Bool) (i' l' : Int) (saved : Bytes)
+    (h1 : err = true → IndexSpaceUsedUp s)
+    (h2 : saved = flat (if err = false then s.parked ++ [(s.next, (s.readable ++ bytes).take (saveLen n (s.readable ++ bytes).length))]
+      else s.parked)) :
+    Spec.Slots.step s (.add bytes n) (.add i l err i' l' saved) =
+      some { s with readable := (s.readable ++ bytes).drop (saveLen n (s.readable ++ bytes).length),
+                    parked := if err = false then s.parked ++ [(s.next, (s.readable ++ bytes).take (saveLen n (s.readable ++ bytes).length))]
+                      else s.parked,
+                    next := if err = false then s.next + 1 else s.next } := by
+  unfold Spec.Slots.step
+  dsimp only
+  rw [if_pos ⟨h1, h2⟩]
+
+theorem step_add (m : St) (s : S) (bytes : Bytes) (n : Int) (hR : Roff m s) :
+    ∃ s', Spec.Slots.step s (.add bytes n) (Model.Slots.step m (.add bytes n)).2 = some s' ∧
+          Roff (Model.Slots.step m (.add bytes n)).1 s' := by
+  obtain ⟨a, G, c1, c2, hpk, hgone, hbuf, hoff, hlive, hnext, hfresh, hnodup⟩ := hR
+  have hkle := saveLen_le n (s.readable ++ bytes).length
+  have hpktlen : ((s.readable ++ bytes).take (saveLen n (s.readable ++ bytes).length)).length
+      = saveLen n (s.readable ++ bytes).length := by
+    rw [List.length_take]; omega
+  have hgl : (flat s.parked).length = glen G := by rw [hpk]; rfl
+  obtain ⟨hs0, hs1⟩ := sidx_le G ((s.readable ++ bytes).take (saveLen n (s.readable ++ bytes).length))
+  obtain ⟨hf1, hf2⟩ := feed_spec m.buf (flat s.parked) s.readable bytes n hbuf
+  have hf2' : (feed m.buf bytes n).2 = ⟨sidx G ((s.readable ++ bytes).take (saveLen n (s.readable ++ bytes).length)),
+      ((s.readable ++ bytes).take (saveLen n (s.readable ++ bytes).length)).length⟩ := by
+    rw [hf2, hpktlen]
+    unfold sidx
+    by_cases hk0 : saveLen n (s.readable ++ bytes).length = 0
+    · rw [if_pos hk0, hk0]; simp
+    · rw [if_neg hk0, if_neg (by
+        intro hx; have h' := congrArg List.length hx; rw [hpktlen, List.length_nil] at h'; exact hk0 h'), hgl]
+  obtain ⟨hadd, hoff'⟩ := off_add m.tree a G hoff s.next ((s.readable ++ bytes).take (saveLen n (s.readable ++ bytes).length))
+  have hdis := discard_at (feed m.buf bytes n).1 (flat s.parked)
+    ((s.readable ++ bytes).take (saveLen n (s.readable ++ bytes).length)) [] _
+    (sidx G ((s.readable ++ bytes).take (saveLen n (s.readable ++ bytes).length)))
+    (by rw [List.append_nil]; exact hf1)
+    (by intro hne; unfold sidx; rw [if_neg hne, hgl])
+    hs0 (Int.le_trans hs1 (by rw [← hgl]; exact Int.ofNat_le.mpr (by simp)))
+  simp only [List.append_nil] at hdis
+  obtain ⟨_, _, b', r', hd1, hd2⟩ := hdis
+  rw [← hf2'] at hadd hd1
+  by_cases hlim : sidx G ((s.readable ++ bytes).take (saveLen n (s.readable ++ bytes).length)) + psum a m.tree.length
+      ≥ m.tree.length
+  · -- index space used up: error, the slot just saved is discarded
+    rw [if_pos hlim] at hadd
+    have hstep : Model.Slots.step m (.add bytes n) =
+        ({ m with buf := b' }, .add (feed m.buf bytes n).2.Index (feed m.buf bytes n).2.Length true 0 0 (flat s.parked)) := by
+      unfold Model.Slots.step
+      dsimp only
+      rw [hadd]
+      dsimp only
+      rw [hd1]
+      dsimp only
+      rw [saved_of_bufOk hd2]
+    rw [hstep]
+    refine ⟨_, spec_add s bytes n _ _ true 0 0 _ (fun _ => ?_) rfl, a, G, c1, c2, hpk, hgone, hd2, hoff, hlive, hnext, hfresh, hnodup⟩
+    unfold IndexSpaceUsedUp; rw [hgl, hgone, ← c1]; omega
+  · rw [if_neg hlim] at hadd
+    have hstep : Model.Slots.step m (.add bytes n) =
+        ({ m with buf := (feed m.buf bytes n).1,
+                  live := m.live ++ [(m.next, ⟨sidx G ((s.readable ++ bytes).take (saveLen n (s.readable ++ bytes).length)) +
+                    psum a m.tree.length, ((s.readable ++ bytes).take (saveLen n (s.readable ++ bytes).length)).length⟩)],
+                  next := m.next + 1 },
+          .add (feed m.buf bytes n).2.Index (feed m.buf bytes n).2.Length false
+            (sidx G ((s.readable ++ bytes).take (saveLen n (s.readable ++ bytes).length)) + psum a m.tree.length)
+            ((s.readable ++ bytes).take (saveLen n (s.readable ++ bytes).length)).length
+            (flat s.parked ++ (s.readable ++ bytes).take (saveLen n (s.readable ++ bytes).length))) := by
+      unfold Model.Slots.step
+      dsimp only
+      rw [hadd]
+      dsimp only
+      rw [saved_of_bufOk hf1]
+    rw [hstep]
+    have hflat' : flat (s.parked ++ [(s.next, (s.readable ++ bytes).take (saveLen n (s.readable ++ bytes).length))]) =
+        flat s.parked ++ (s.readable ++ bytes).take (saveLen n (s.readable ++ bytes).length) := by
+      rw [flat_append]; simp [flat]
+    have htot0 : 0 ≤ psum a m.tree.length := psum_nonneg a hoff.nonneg _
+    refine ⟨_, spec_add s bytes n _ _ false _ _ _ (by simp) hflat'.symm,
+      a, G ++ [⟨s.next, (sidx G ((s.readable ++ bytes).take (saveLen n (s.readable ++ bytes).length)) + psum a m.tree.length).toNat,
+        (s.readable ++ bytes).take (saveLen n (s.readable ++ bytes).length)⟩], c1, c2, ?_, hgone, ?_, hoff' hlim, ?_, ?_, ?_, ?_⟩
+    · show s.parked ++ _ = _
+      rw [toParked_append, hpk]; rfl
+    · show BufOk (feed m.buf bytes n).1 (flat (s.parked ++ [(s.next, _)])) _
+      rw [hflat']; exact hf1
+    · show m.live ++ _ = _
+      unfold toLive
+      rw [List.map_append, ← toLive, ← hlive, hnext]
+      simp only [List.map_cons, List.map_nil]
+      congr 4
+      omega
+    · show m.next + 1 = s.next + 1
+      rw [hnext]
+    · intro g hg
+      show g.seq < s.next + 1
+      rcases List.mem_append.mp hg with hg | hg
+      · have := hfresh g hg; omega
+      · simp only [List.mem_singleton] at hg; subst hg; show s.next < s.next + 1; omega
+    · rw [List.pairwise_append]
+      refine ⟨hnodup, by simp, ?_⟩
+      intro g hg b hb
+      simp only [List.mem_singleton] at hb; subst hb
+      have := hfresh g hg
+      show g.seq ≠ s.next
+      omega
+
+theorem step_off (m : St) (s : S) (h : Int) (hR : Roff m s) :
+    ∃ s', Spec.Slots.step s (.off h) (Model.Slots.step m (.off h)).2 = some s' ∧
+          Roff (Model.Slots.step m (.off h)).1 s' := by
+  obtain ⟨a, G, c1, c2, hpk, hgone, hbuf, hoff, hlive, hnext, hfresh, hnodup⟩ := hR
+  by_cases hin : ∃ g ∈ G, g.seq = h
+  · obtain ⟨g, hg, rfl⟩ := hin
+    obtain ⟨G1, G2, rfl⟩ := List.append_of_mem hg
+    obtain ⟨hu1, hu2⟩ := nodup_unique hnodup
+    obtain ⟨idx, hoffs, hi1, hi2, hi3, hoff', hpsn⟩ := off_offset m.tree a G1 G2 g hoff (by rw [c1]; exact c2)
+    have hflat : flat s.parked = flat (toParked G1) ++ g.bytes ++ flat (toParked G2) := by
+      rw [hpk, toParked_append, flat_append]
+      show _ ++ (g.bytes ++ flat (toParked G2)) = _
+      rw [List.append_assoc]
+    have hbuf' := hbuf
+    rw [hflat] at hbuf'
+    have hlen1 : (flat (toParked G1)).length = glen G1 := rfl
+    obtain ⟨hslice, hsl, b', r', hd1, hd2⟩ := discard_at m.buf _ _ _ _ idx hbuf'
+      (by intro hne; rw [hlen1]; exact hi1 hne) hi2
+      (by rw [← hflat, hpk]; exact hi3)
+    have hrest : without s.parked g.seq = toParked (G1 ++ G2) := by
+      rw [hpk]; exact without_toParked G1 G2 g hu1 hu2
+    have hflat' : flat (toParked (G1 ++ G2)) = flat (toParked G1) ++ flat (toParked G2) := by
+      rw [toParked_append, flat_append]
+    have hlook : s.parked.lookup g.seq = some g.bytes := by
+      rw [hpk]; exact lookup_toParked_some G1 G2 g hu1
+    have hlive' : m.live.lookup g.seq = some ⟨(g.o : Int), (g.bytes.length : Int)⟩ := by
+      rw [hlive]; exact lookup_toLive_some G1 G2 g hu1
+    have hstep : Model.Slots.step m (.off g.seq) =
+        ({ m with buf := b', tree := m.tree.add g.o g.bytes.length, live := m.live.filter (fun p => p.1 != g.seq) },
+          .off idx g.bytes.length (some g.bytes) (flat (toParked G1) ++ flat (toParked G2))) := by
+      unfold Model.Slots.step
+      dsimp only
+      rw [hlive']
+      dsimp only
+      rw [hoffs]
+      dsimp only
+      rw [hd1]
+      dsimp only
+      rw [hsl, saved_of_bufOk hd2]
+    rw [hstep]
+    refine ⟨{ s with parked := without s.parked g.seq, gone := s.gone + g.bytes.length }, ?_,
+      upd a g.o g.bytes.length, G1 ++ G2, ?_, c2, hrest, ?_, ?_, hoff', ?_, hnext, ?_, ?_⟩
+    · unfold Spec.Slots.step
+      dsimp only
+      rw [hlook]
+      dsimp only
+      rw [if_pos ⟨⟨by rw [hflat]; exact hslice, rfl⟩, by rw [hrest, hflat']⟩]
+    · show ((m.tree.add _ _).length : Int) = _
+      rw [add_length]; exact c1
+    · show s.gone + (g.bytes.length : Int) = psum _ (m.tree.add _ _).length
+      rw [add_length, hpsn, hgone]
+    · show BufOk b' (flat (without s.parked g.seq)) s.readable
+      rw [hrest, hflat']; exact hd2
+    · show m.live.filter _ = _
+      rw [hlive]; exact filter_toLive G1 G2 g hu1 hu2
+    · intro x hx
+      apply hfresh
+      rcases List.mem_append.mp hx with h1 | h1
+      · exact List.mem_append_left _ h1
+      · exact List.mem_append_right _ (List.mem_cons_of_mem _ h1)
+    · rw [List.pairwise_append, List.pairwise_cons] at hnodup
+      rw [List.pairwise_append]
+      exact ⟨hnodup.1, hnodup.2.1.2, fun x hx y hy => hnodup.2.2 x hx y (List.mem_cons_of_mem _ hy)⟩
+  · have hl1 : m.live.lookup h = none := by rw [hlive]; exact lookup_toLive_none G h hin
+    have hl2 : s.parked.lookup h = none := by rw [hpk]; exact lookup_toParked_none G h hin
+    have hstep : Model.Slots.step m (.off h) = (m, .skip) := by
+      unfold Model.Slots.step
+      dsimp only
+      rw [hl1]
+    rw [hstep]
+    refine ⟨s, ?_, a, G, c1, c2, hpk, hgone, hbuf, hoff, hlive, hnext, hfresh, hnodup⟩
+    unfold Spec.Slots.step
+    dsimp only
+    rw [hl2]; rfl
+
+theorem step_reset (m : St) (s : S) (hR : Roff m s) :
+    ∃ s', Spec.Slots.step s .reset (Model.Slots.step m .reset).2 = some s' ∧
+          Roff (Model.Slots.step m .reset).1 s' := by
+  obtain ⟨a, G, c1, c2, hpk, hgone, hbuf, hoff, hlive, hnext, hfresh, hnodup⟩ := hR
+  cases G with
+  | nil =>
+    have hl : m.live = [] := hlive
+    have hp : s.parked = [] := hpk
+    have hstep : Model.Slots.step m .reset = ({ m with tree := m.tree.reset }, .unit) := by
+      unfold Model.Slots.step
+      dsimp only
+      rw [if_pos hl]
+    rw [hstep]
+    refine ⟨{ s with gone := 0 }, ?_, fun _ => 0, [], ?_, c2, hpk, (psum_zero _).symm, hbuf, off_reset _, hlive, hnext, hfresh, hnodup⟩
+    · unfold Spec.Slots.step
+      dsimp only
+      rw [if_pos hp]
+    · show ((m.tree.reset).length : Int) = _
+      rw [reset_length]; exact c1
+  | cons g r =>
+    have hl : m.live ≠ [] := by rw [hlive]; simp [toLive]
+    have hp : s.parked ≠ [] := by rw [hpk]; simp [toParked]
+    have hstep : Model.Slots.step m .reset = (m, .skip) := by
+      unfold Model.Slots.step
+      dsimp only
+      rw [if_neg hl]
+    rw [hstep]
+    refine ⟨s, ?_, a, g :: r, c1, c2, hpk, hgone, hbuf, hoff, hlive, hnext, hfresh, hnodup⟩
+    unfold Spec.Slots.step
+    dsimp only
+    rw [if_neg hp]
+
+theorem step_refines_off (m : St) (s : S) (op : Op) (hR : Roff m s) (hop : OpOkOff op) :
+    ∃ s', Spec.Slots.step s op (Model.Slots.step m op).2 = some s' ∧ Roff (Model.Slots.step m op).1 s' := by
+  cases op with
+  | park _ _ _ => exact absurd hop id
+  | take _ => exact absurd hop id
+  | add bytes n => exact step_add m s bytes n hR
+  | off h => exact step_off m s h hR
+  | reset => exact step_reset m s hR
+
+theorem run_accepted_off (m : St) (s : S) (ops : List Op) (hR : Roff m s) (hops : ∀ op ∈ ops, OpOkOff op) :
+    accepts s (run m ops) = true := by
+  induction ops generalizing m s with
+  | nil => rfl
+  | cons op r ih =>
+    obtain ⟨s', h1, h2⟩ := step_refines_off m s op hR (hops op (List.mem_cons_self ..))
+    simp only [run, accepts, h1]
+    exact ih _ _ h2 (fun o ho => hops o (List.mem_cons_of_mem _ ho))
+
+/-- **C20 for the bare `SlotOffsetter`.** For every size of the offsetter and every interleaving of
+`add` (every packet size, index space used up or not), `off` (held slots in any order, unknown
+handles) and `reset` (when nothing is held), the slot `Offset` returns addresses exactly the bytes
+saved under that handle, discarding it removes exactly those bytes and leaves every other packet in
+place, an error is returned only when the index space is used up, and nothing panics. -/
+theorem C20_offsetter_addresses_saved_bytes (maxBytes : Int) (h0 : 0 ≤ maxBytes) (h1 : maxBytes ≤ Go.I64MAX)
+    (ops : List Op) (hops : ∀ op ∈ ops, OpOkOff op) :
+    accepts (Spec.Slots.init 0 maxBytes) (run (Model.Slots.init 0 maxBytes) ops) = true := by
+  apply run_accepted_off _ _ ops _ hops
+  refine ⟨fun _ => 0, [], ?_, h1, rfl, (psum_zero _).symm, ⟨rfl, rfl, rfl⟩, off_new maxBytes, rfl, rfl, ?_, List.Pairwise.nil⟩
+  · show ((Tree.new maxBytes).length : Int) = maxBytes
+    rw [new_length]; omega
+  · intro g hg; cases hg
 
 /-! ## `fenwick_prefix_sum` -/
 
@@ -483,14 +787,22 @@ wrong behaviour (so acceptance is not trivial). -/
 
 example : CfgOk 4 64 := by decide
 
-/-- out of order, never draining until the end, a duplicate, a miss, the slot limit -/
+/-- out of order, never draining until the end, a duplicate, a miss, the slot limit, an empty
+packet, a `Save` of fewer bytes than were written -/
 def demo : List Op :=
   [.park 5 [0x51, 0x52] 2, .park 2 [0x21, 0x22, 0x23] 3, .park 9 [0x91] 1, .take 2, .park 5 [0xff] 1,
-   .park 3 [0x31, 0x32] 2, .take 7, .take 5, .park 1 [0x11] 1, .park 4 [0x41] 1, .park 6 [0x61] 1,
-   .take 9, .take 3, .take 1, .take 4]
+   .park 3 [0x31, 0x32] 2, .take 7, .take 5, .park 1 [0x11] 1, .park 4 [] 0, .park 6 [0x61] 1,
+   .take 9, .take 3, .take 4, .take 1, .park 8 [0x81, 0x82, 0x83] 2, .park 7 [0x71] 9, .take 8, .take 7]
+
+/-- the bare offsetter: out of order, an empty packet, an unknown handle, a reset -/
+def demoOff : List Op :=
+  [.add [0xa1] 1, .add [0xb1, 0xb2] 2, .add [0xc1, 0xc2, 0xc3] 3, .off 1, .add [] 0, .off 2, .off 7, .reset,
+   .off 3, .off 0, .reset, .add [0xd1] 1, .off 4]
 
 example : ∀ op ∈ demo, OpOk op := by decide
 example : accepts (Spec.Slots.init 4 64) (run (Model.Slots.init 4 64) demo) = true := by decide
+example : ∀ op ∈ demoOff, OpOkOff op := by decide
+example : accepts (Spec.Slots.init 0 8) (run (Model.Slots.init 0 8) demoOff) = true := by decide
 
 -- a slot that is off by one byte, a discard that removes the wrong packet, an accepted duplicate,
 -- an error without a limit, a wrong byte count: all rejected
